@@ -100,7 +100,7 @@ class C18(Prop):
         wide = r.random() < 0.35       # W >= 4 is where lambda*k and sum_k(lambda) can differ
         case = workload.gen_case("C18", seed, lambda_values=(ANY_L if r.random() < 0.5 else DYADIC_L) if r.random() < 0.75
                                  else NARROW_L,
-                                 beta_values=(0, 0.5, 2, 5, 20, 200), beta_forms=("float",),
+                                 beta_values=(0, 0.5, 2, 2.5, 5, 7.25, 20, 200), beta_forms=("float",),
                                  lambda_forms=("float",), mmc_values=(0, 0, 2.0 ** -10, 2.0 ** -7),
                                  limits=(1, 2, 3, 5), N=(1, 1) if wide else (1, 3), W=(4, 8) if wide else (1, 4),
                                  max_nw=8)
@@ -235,6 +235,14 @@ class C18(Prop):
         rec = Record()
         r = core.rng(seed, "C18", "plan")
         case = self.gen(seed)
+        if r.random() < 0.5:
+            # same shapes, integer-typed scalars of other values, executed first in this process history
+            primer = workload.clone(case)
+            primer["args"]["label_switching_cost"] = dict(form=r.choice(["int", "np.int64"]), value=r.choice([1, 3, 40]), seed=0)
+            primer["args"]["sparsity_weight"] = dict(form=r.choice(["int", "np.float32"]), value=r.choice([1, 2]), seed=0)
+            primer["args"]["iteration_limit"] = 2
+            case["history"] = [primer]
+            rec.probe("primer_call_in_other_forms")
         base = runner.execute(case)
         rec.absorb(base)
         fp0 = fingerprint(base)
